@@ -673,27 +673,26 @@ class Driver:
                            int((time.time() - t0) * 1000))
 
     def _run_token(self, r, tok):
-        if True:
-            if tok[0] == "SETUP":
-                if not r.setup_done:
-                    self.do_setup(r)
-                    r.setup_done = True
-            elif tok[0] == "W":
-                self.do_load(r, tok[1])
-            elif tok[0] == "CHECK":
-                self.do_check(r, tok[1])
-            elif tok[0] == "DROP":
-                self.do_drop(r, tok[1] if len(tok) > 1 else 1)
-            elif tok[0] == "RC":
-                self.do_recreate(r, tok[1])
-            elif tok[0] == "RW":
-                self.do_rewrite(r)
-            elif tok[0] == "RW2":
-                self.do_rewrite(r, second=True)
-            elif tok[0] == "LATEDROP":
-                pass  # executed right before kill -9
-            else:
-                raise ValueError(tok)
+        if tok[0] == "SETUP":
+            if not r.setup_done:
+                self.do_setup(r)
+                r.setup_done = True
+        elif tok[0] == "W":
+            self.do_load(r, tok[1])
+        elif tok[0] == "CHECK":
+            self.do_check(r, tok[1])
+        elif tok[0] == "DROP":
+            self.do_drop(r, tok[1] if len(tok) > 1 else 1)
+        elif tok[0] == "RC":
+            self.do_recreate(r, tok[1])
+        elif tok[0] == "RW":
+            self.do_rewrite(r)
+        elif tok[0] == "RW2":
+            self.do_rewrite(r, second=True)
+        elif tok[0] == "LATEDROP":
+            pass  # executed right before kill -9
+        else:
+            raise ValueError(tok)
 
     # ---------------------------------------------------------------- cross-database scenario
     def crossdb(self):
@@ -1072,7 +1071,18 @@ def run(tier, replay):
             reports.append(o["rep"])
             allv += o["all"]
         if errs:
-            checklib.tool_error("; ".join(errs))
+            # a driver ended early (typically: the server died). Violations recorded before that are valid counterexamples
+            # (seed C13-3: the stale deleted-ids index, re-opened in a removed directory, panics in its flush about a second
+            # after the reads have disagreed); they are reported and the run counts as not exhaustive. Without any new
+            # violation the early end is a tool error, never a verdict.
+            known = checklib.load_known(CID)
+            if not any(checklib.match_known(v, known) is None for r in reports for v in r.get("violations") or []):
+                checklib.tool_error("; ".join(errs))
+            checklib.log("C13: a driver ended early, reporting the violations recorded before that: " + "; ".join(errs)[:1500])
+            for r in reports:
+                r["exhaustive"] = False
+            reports[0].setdefault("notes", []).append("exploration ended early on one server (%s); the violations were recorded "
+                                                      "before that" % "; ".join(errs)[:600])
         if any(r["counters"].get("histories_abandoned_after_violation") for r in reports):
             for r in reports:
                 r["exhaustive"] = False
